@@ -212,6 +212,62 @@ def _process_item(kind, head, sub, meta, occ=None):
                 raise ExtractError(f"{what}: rewrite pattern `{t[0]}` found {got} times, expected {want}")
             text = text.replace(t[0], t[1])
             rec["rewrites"].append(f"`{t[0]}` => `{t[1]}` x{want}")
+    # 1z. `//@dropstmt `anchor``: the statement containing the anchor (back to the previous `;`/`{`/`}` at the same depth, forward to its
+    # `;`) is DROPPED (D2, listed) — for statements Verus cannot translate (closures passed to std adapters) that do not touch the
+    # state the contract is about.  The anchor must occur exactly once.
+    for (d, tail, lines) in sub:
+        if d != "dropstmt":
+            continue
+        t = _ticks(tail)
+        tm0 = R.mask(text)
+        pos = _find_occ(tm0, t[0], None, what)
+        k, dep = pos, 0
+        while k > 0:
+            c = tm0[k - 1]
+            if c in ")]}":
+                if dep == 0 and c == "}":
+                    break
+                dep += 1
+            elif c in "([{":
+                if dep == 0:
+                    break
+                dep -= 1
+            elif c == ";" and dep == 0:
+                break
+            k -= 1
+        e, dep = pos, 0
+        while e < len(tm0):
+            c = tm0[e]
+            if c in "([{":
+                dep += 1
+            elif c in ")]}":
+                dep -= 1
+            elif c == ";" and dep == 0:
+                e += 1
+                break
+            e += 1
+        rec["drops"].append("D2 dropstmt: `" + " ".join(text[k:e].split())[:160] + "`")
+        text = text[:k] + text[e:]
+    # 1a. `//@forwhile <n>` (R4, generic): the n-th loop, which must be `for X in A..B {` or `for X in A..=B {` over integers, is read as
+    # `let mut __X = A; while __X < B { let X = __X; __X += 1;` (`<=` for the inclusive form).  Purely syntactic; whatever the bounds
+    # are in the current tree is what gets verified (so an edited bound is decided, not a lost pattern).  Several loops: highest n first.
+    fw = sorted([int(tail.split()[0]) for (d, tail, lines) in sub if d == "forwhile"], reverse=True)
+    for nth in fw:
+        tm0 = R.mask(text)
+        lo0 = R.next_open_brace(tm0, tm0.find("fn ")) if kind == "fn" else 0
+        ls0 = R.loops(tm0, lo0, len(tm0))
+        if len(ls0) < nth:
+            raise ExtractError(f"{what}: forwhile: loop #{nth} not found ({len(ls0)} loops)")
+        lp0 = ls0[nth - 1]
+        hdr = text[lp0["pos"]:lp0["body_open"]]
+        mh = re.match(r"for\s+(\w+)\s+in\s+(.*?)\.\.(=?)(.*?)\s*$", hdr, re.S)
+        if lp0["kw"] != "for" or not mh or not mh.group(2).strip() or not mh.group(4).strip():
+            raise ExtractError(f"{what}: forwhile: loop #{nth} is not `for x in a..b`")
+        var, a0, incl, b0 = mh.group(1), mh.group(2).strip(), mh.group(3), mh.group(4).strip()
+        op = "<=" if incl else "<"
+        new_hdr = f"let mut __{var} = {a0}; while __{var} {op} {b0} "
+        text = text[:lp0["pos"]] + new_hdr + "{" + f" let {var} = __{var}; __{var} += 1;" + text[lp0["body_open"] + 1:]
+        rec["rewrites"].append(f"R4 forwhile loop #{nth}: `{hdr.strip()}` => `{new_hdr.strip()} {{ let {var} = __{var}; __{var} += 1;`")
     # 1b. `//@strslice NAME string|str`: every byte-range slice `NAME[a..b]` / `&NAME[a..]` / `NAME[..b]` of that text variable is
     # read as a call of the slicing shim (units/std_text.rs), whose precondition is that the offsets are char boundaries.  Applied to
     # whatever slices the current text has (zero or more), so that a NEW slice on the variable is decided, not a compile error.
@@ -291,7 +347,7 @@ def _process_item(kind, head, sub, meta, occ=None):
             if mm.group(1) == "after":
                 pos += len(t[0])
             inserts.append((pos, order, "\n" + ghost + "\n", f"{mm.group(1)} `{t[0]}`"))
-        elif d.startswith("rewrite") or d == "strslice":
+        elif d.startswith("rewrite") or d in ("strslice", "forwhile", "dropstmt"):
             pass
         else:
             raise ExtractError(f"{what}: unknown sub-directive {d}")
